@@ -8,11 +8,10 @@ ROUTES = ("dict", "json", "cbor", "mgpk")
 def _res(fn):
     try:
         return ("ok", fn())
-    except ValueError as ex:
-        # _fromX raises ValueError when datify did not produce an instance of the class
-        if type(ex) is ValueError:
-            return ("raise", "ValueError")
-        raise
+    except Exception as ex:
+        # _fromX raises ValueError when datify did not produce an instance of the class; anything else is
+        # reported as it is (the model only ever predicts ValueError)
+        return ("raise", type(ex).__name__)
 
 
 class C28(core.Check):
@@ -31,7 +30,7 @@ class C28(core.Check):
                   "field into an instance (witness, known finding C28-K2). That json/cbor2/msgpack are lawful on the generated domain is carried by the correspondence run only.")
     level_note = ("Trusted: Lean kernel + propext/Classical.choice/Quot.sound; dataclasses.asdict / dataclass __init__ / typing introspection as modelled; "
                   "json, cbor2, msgpack as lawful codecs on the common domain (exercised, not proved); representativeness of the sampled correspondence.")
-    quick_n = 1200
+    quick_n = 4000
     thorough_n = 30000
     rule = ("rt cases: random schema of 1-5 fresh run-time dataclasses over RawDom/RegDom/TymeDom/Ice*/MapDom bases, fields annotated Any / builtin / class / Optional[class] / "
             "class|None / list[class] / dict[str,class] / 'class' (string), defaults or required; instance of depth <= 4 with 64-bit ints, non-NaN floats incl. inf and -0.0, "
@@ -88,14 +87,24 @@ class C28(core.Check):
         x = D.to_py(case[2], classes)
         cls = type(x)
         orig = D.canon(x, classes)
-        asd = D.canon(x._asdict(), classes)
+        try:
+            asd = D.canon(x._asdict(), classes)
+        except Exception as ex:
+            asd = ("raise", type(ex).__name__)
         routes = ["dict"] + (["json", "cbor", "mgpk"] if hasattr(cls, "_asjson") else [])
         out = []
         eqs = []
         for r in routes:
-            ser = getattr(x, "_as" + r)()
+            try:
+                ser = getattr(x, "_as" + r)()
+            except Exception as ex:
+                out.append((r, ("raise-serialize", type(ex).__name__)))
+                eqs.append(False)
+                continue
             if r != "dict" and not isinstance(ser, bytes):
-                return (orig, asd, ((r, ("foreign", "notbytes")),), ())
+                out.append((r, ("foreign", "notbytes")))
+                eqs.append(False)
+                continue
             res = _res(lambda: getattr(cls, "_from" + r)(ser))
             if res[0] == "ok":
                 y = res[1]
@@ -121,7 +130,7 @@ class C28(core.Check):
         bad = []
         for (r, res), eq in zip(routes, eqs):
             if res[0] != "ok":
-                bad.append(f"{r}-deserialize-raised")
+                bad.append(f"{r}-raised")
             elif not eq:
                 bad.append(f"{r}-not-equal-or-other-class")
             elif res[1] != orig:
